@@ -648,6 +648,17 @@ def analyze(scenario, log):
             bad("C14", "history of %s %d: sample times decrease: %s" % (kind, idx, h))
         changes = {"res": res_changes, "oq": oq_changes, "pq": pq_changes, "pool": pool_changes, "buf": buf_changes}.get(kind)
         kcode = {"res": 0, "pool": 1, "buf": 2, "oq": 3, "pq": 4}[kind]
+        # while recording is on every change of the level is sampled, so the newest sample shows the current level
+        # (needs no knowledge of the trajectory: holds for blocked and preempted calls too)
+        wins = rec.get((kcode, idx), [])
+        dk, field = {"res": ("R", "inuse"), "pool": ("L", "inuse"), "buf": ("B", "level"), "oq": ("O", "len"), "pq": ("K", "len")}[kind]
+        if wins and wins[-1][1] is None and all(w_[1] is not None for w_ in wins[:-1]) and idx in dump.get(dk, {}):
+            cur = int(dump[dk][idx][field])
+            if not h:
+                bad("C14", "history of %s %d is empty although recording is on" % (kind, idx))
+            elif h[-1][0] != cur:
+                bad("C14", "history of %s %d: recording is on and the newest sample says %d at t=%d, but the level is %d"
+                    % (kind, idx, h[-1][0], h[-1][1], cur))
         if changes is None or idx >= len(changes):
             continue
         if kind == "pq" and pq_unknown[idx]:
